@@ -468,12 +468,10 @@ class Run:
         hist = core.history[h0:]
         datas = core.data_in[d0:]
         statuses = core.status_sent[st0:]
-        if mps_unknown and not (spec.name == "get_property" and op.get("tag") == 11):
-            # the host may query the max packet size once per McuBoot object (legal, not part of the call's effect)
-            for j, h in enumerate(hist):
-                if h[:3] == ("get_property", 11, 0) or (h[0] == "refused" and h[1] == 7 and h[2][:1] == (11,)):
-                    hist = hist[:j] + hist[j + 1 :]
-                    break
+        if not (spec.name == "get_property" and op.get("tag") == 11):
+            # the host may query the max packet size whenever it likes (once per object today; a refactoring that
+            # asks again is protocol-legal): such queries are not part of the call's effect
+            hist = [h for h in hist if not (h[:3] == ("get_property", 11, 0) or (h[0] == "refused" and h[1] == 7 and h[2][:1] == (11,)))]
         status_code = s.mb.status_code
         self.log.add("op", k, spec.name, outcome[0], str(outcome[1])[:60] if outcome[0] != "ret" else _ret_sig(outcome[1]), status_code, dt, len(hist), sorted(fp.fired), sorted(dev_fired))
         if len(self.trace) < 60:
